@@ -439,6 +439,16 @@ class SFloat(Sym):
                 if lo is not None:
                     declare_var(str(r), r, math.floor(lo), math.ceil(hi))
             return SInt(r)
+        if self.aff is not None and not self.aff.all_int_vars() and self.err > 0:
+            # a computed double within err of an exact value that ranges over the REALS (no lattice to decide robustness on):
+            # its truncation is some integer between floor(e - err) and floor(e + err)  (sound over-approximation)
+            lo, hi = self.aff.bounds()
+            if lo is not None and lo >= -self.err:
+                r2 = c.fresh('fli')
+                E = z3.RealVal(str(self.err))
+                c.assume(z3.And(z3.ToReal(r2) <= self.t + E, z3.ToReal(r2) + 1 > self.t - E, r2 >= 0))
+                declare_var(str(r2), r2, max(0, math.floor(lo - self.err)), math.floor(hi + self.err))
+                return SInt(r2)
         r, robust, info = self._floor_int('int')
         if not robust and getattr(c, 'nonrobust_int', None) == 'choose' and self.aff.bounds()[0] is not None and (self.zsafe or self.aff.bounds()[0] >= self.err):
             # contract mode chosen by the driver: the truncation of a value within err of e is any integer between
@@ -640,7 +650,9 @@ class SFloat(Sym):
         slack = z3.RealVal(str(Fraction(1, 2) + self.err * 10 ** p))
         c.assume(z3.And(z3.ToReal(R) >= self.t * sc - slack, z3.ToReal(R) <= self.t * sc + slack))
         if not c.decide(self.t * sc >= -slack):
-            raise OutOfSubset('formatting a negative float')
+            # a negative value: '-' followed by the text of its magnitude ('%.3f' % -1e-9 is '-0.000': the sign stays)
+            neg = (-self)._sym_printf(flags, width, prec, ty)
+            return S.mk(['-'] + list(S.cells_of(neg)))
         c.assume(R >= 0)
         # integer part: canonical digits (forks on their number); fraction: p fixed digit cells
         I = c.fresh('fmti')
